@@ -202,7 +202,13 @@ fn run(ctx: &mut Ctx) {
         };
         let p = [x0, y0, z0, r_helix, phi0, h];
         let dist = *rng.pick(&[0.0, 0.11, 0.15, r_helix, 0.19, 1e-300, 1e-17, 1e-12, 1e-9, 3e-9, 1e-8, 1e-7, 5e-7, 1e-6, 2e-6, 1e-4]);
-        let (x, y, z, what) = match i % 6 {
+        // (the pitch of case 6 is set from the geometry: eccentricity e = 4 pi^2 rho R / h^2 just below / above 1)
+        let rho6 = rng.range(0.03, 0.3);
+        let t6 = rng.range(-2.0, 2.0);
+        let h6 = 2.0 * PI * (rho6 * r_helix).sqrt() * (1.0 + *rng.pick(&[1e-6, -1e-6, 1e-4, -1e-4, 5e-4, -5e-4, 1e-3, -1e-3, 2e-3, 0.0])) * if rng.bool() { 1.0 } else { -1.0 };
+        let p = if i % 7 == 6 { [x0, y0, z0, r_helix, phi0, h6] } else { p };
+        let h = if i % 7 == 6 { h6 } else { h };
+        let (x, y, z, what) = match i % 7 {
             0 if rng.bool() => (x0, y0, z0 + rng.range(-1.2, 1.2), "point exactly on the helix axis"),
             0 => {
                 // next to the axis: `dist` away from it in a random direction, z within half a pitch of z0 or anywhere
@@ -218,6 +224,12 @@ fn run(ctx: &mut Ctx) {
                 (c.x.get::<meter>(), c.y.get::<meter>(), c.z.get::<meter>(), "point exactly on the curve")
             }
             4 => (x0 + dist * (phi0 + PI / 2.0).cos(), y0 + dist * (phi0 + PI / 2.0).sin(), z0 + h / 4.0, "point a quarter turn away"),
+            6 => {
+                // diametrically opposite the helix point of equal height (mean anomaly ~ 0), eccentricity next to 1
+                let ang = phi0 + t6 + PI;
+                let dz = *rng.pick(&[0.0, 1e-12, -1e-9, 1e-6]);
+                (x0 + rho6 * ang.cos(), y0 + rho6 * ang.sin(), z0 + h * t6 / (2.0 * PI) + dz, "point opposite the helix point of equal height, eccentricity next to 1")
+            }
             _ => (x0 - dist * phi0.cos(), y0 - dist * phi0.sin(), z0 + h / 2.0 * if rng.bool() { 1.0 } else { -1.0 }, "point opposite, half a pitch away"),
         };
         // the SpacePoint is given in cylindrical coordinates about the *detector* axis
